@@ -103,10 +103,21 @@ def check_C17(tier, t0):
     n_real = 240 if tier == "quick" else 16000
     bud = budget(150 if tier == "quick" else 1500)
     params = {"seed": seed, "real_every": max(1, n // n_real)}
+    n_eof = len(ec.eof_sweep_cases())
+    sweep, _ = core.run_batch(ec.make_engine, {"seed": seed, "mode": "eofsweep"}, n_eof, 64, bud)
+    eof_done = sweep.evaluations
     agg, info = core.run_batch(ec.make_engine, params, n, 500 if tier == "quick" else 5000, bud)
+    for v in agg.violations.values():
+        v["index"] += n_eof
+    sweep.merge(agg)
+    agg = sweep
     engine = ec.make_engine(seed, 0)
     c = agg.counters
     extra = {
+        "eof_sweep": {"cases": n_eof, "executed": eof_done, "exhaustive": eof_done == n_eof,
+                      "what": "interactive entry for {default,-2,-3,-4} x {mandatory,-a}: end of input at EVERY prompt index "
+                              "(before the first answer .. after the last), as plain EOF and as a legal answer without newline "
+                              "followed by EOF, each also right after a refused answer; every 7th case also as a real child process"},
         "faults_fired": dict((k, v) for k, v in c.items() if k.startswith("fault.")),
         "probes": dict((k, v) for k, v in c.items() if k.startswith("probe.")),
         "clauses_reached": dict((k, v) for k, v in c.items() if k.startswith("reached.")),
